@@ -1588,4 +1588,26 @@ theorem reentrant_later_target_overshoots :
       [⟨1, 0, 0⟩, ⟨5/2, 1, 1⟩] := by
   decide +kernel
 
+/-! ### Raising at once with clock-relative children (round 6) -/
+
+/-- **Bridge**: with callbacks that do not look at the clock, `loopXC` is `loopX` (the object of
+`raise_eq_fuel_out`, `raise_entry_lost`). -/
+theorem loopXC_entry_only (kids : Entry → List (Rat × Nat)) (raises : Entry → Bool) (T : Rat)
+    (fuel : Nat) (s : Sys) : loopXC (fun _ => kids) raises T fuel s = loopX kids raises T fuel s :=
+  loopXC_entry_only' kids raises T fuel s
+
+/-- **The state after an exception, exactly, for callbacks that read the clock** (`self.t + period`):
+the run up to the raising entry `e` is the `loopC` run whose fuel runs out at that callback, with the
+callback of `e` scheduling nothing.  `loopC` runs are `loop` runs (`loopC_eq_loop_table`), so every
+hypothesis-free theorem of this file and the `clockC_*` theorems hold of the interrupted run. -/
+theorem raise_eq_fuel_out_clock (kidsC : Rat → Entry → List (Rat × Nat)) (raises : Entry → Bool) (T : Rat)
+    (fuel : Nat) (s : Sys) (e : Entry) (h : (loopXC kidsC raises T fuel s).raisedAt = some e) :
+    raises e = true ∧
+    (loopXC kidsC raises T fuel s).run =
+      loopC (kidsExceptC kidsC e) T (fired (loopXC kidsC raises T fuel s).run.trace).length s :=
+  ⟨loopXC_raisedAt_raises kidsC raises T fuel s e h, loopXC_raise_eq_loopC' kidsC raises T fuel s e h⟩
+
+example : (loopXC (fun clk _ => [(clk + 1, 0)]) (fun e => e.ctr == 1) 5 10
+    (addCallback init 1 0)).raisedAt = some ⟨2, 1, 0⟩ := by decide +kernel
+
 end HcipyVerif.Scheduler
